@@ -318,14 +318,14 @@ def checkCase (j : Json) : Except String Verdict := do
             match psess with
             | some s =>
               if ns.lifetime != s.lifetime || ns.host != s.host || ns.email != s.email || ns.slug != s.slug || ns.user != s.user then
-                v := v.mon "C04" "check_changed_identity_or_lifetime" idx
+                v := v.mons ["C04", "C01"] "check_changed_identity_or_lifetime" idx
               -- C05: while failures continue the grace period keeps counting from the first failure
               match s.grace, ns.grace with
               | some g, some g' => if g' != g then v := v.mon "C05" "grace_start_moved" idx s!"{g} -> {g'}"
               | _, _ => pure ()
             | none => v := v.mon "C01" "session_minted_without_login" idx
             match chainLifetime.find? (·.1 == host) with
-            | some (_, lt) => if strD presented "kind" == "jar" && clock + ns.lifetime > lt then v := v.mon "C04" "lifetime_moved_later" idx
+            | some (_, lt) => if strD presented "kind" == "jar" && clock + ns.lifetime > lt then v := v.mons ["C04", "C01"] "lifetime_moved_later" idx
             | none => pure ()
         | none => pure ()
       -- C01: a refusal clears the cookie
